@@ -29,6 +29,7 @@ type MapRange struct {
 	Problems []string // undecided / order-sensitive constructs
 	Tainted []ssa.Value
 	Notes   []string
+	appendHelpers []*ssa.Call // calls of append-like helpers that extend a loop-carried slice
 }
 
 // SortSite is a sort.Sort/Stable/Slice call.
@@ -37,6 +38,7 @@ type SortSite struct {
 	Call  *ssa.Call
 	Value ssa.Value // the slice being sorted
 	Less  *ssa.Function
+	LessValue *ssa.Function // the function value handed to the sort (before unwrapping wrappers)
 	Cmp   *CmpResult
 	Total bool   // comparator total (after the functionally-dependent table)
 	Why   string // explanation when not total
@@ -54,6 +56,7 @@ type OrderAnalysis struct {
 	Funcs    []*ssa.Function
 	inSet    map[*ssa.Function]bool
 	Pure     func(fn *ssa.Function) bool          // E1 purity oracle
+	PureExcept func(fn *ssa.Function, ownedParam int) bool // purity with one parameter owned by the caller's loop
 	Observer func(fn *ssa.Function) bool          // trace functions
 	FD       func(site *SortSite, field string) (bool, string) // functionally-dependent table
 	Ranges   []*MapRange
@@ -459,6 +462,18 @@ func (a *OrderAnalysis) loopCarried(mr *MapRange, phi *ssa.Phi) (string, string)
 				}
 				return "bad", "mixes append with other updates"
 			}
+			// a helper that returns its slice argument with elements appended (append-like)
+			if f := x.Call.StaticCallee(); f != nil {
+				if k, ok := appendLikeParam(f); ok && k < len(x.Call.Args) && (web[x.Call.Args[k]] || x.Call.Args[k] == phi) {
+					web[x] = true
+					mr.appendHelpers = append(mr.appendHelpers, x)
+					if kind == "" || kind == "append" {
+						kind = "append"
+						continue
+					}
+					return "bad", "mixes append with other updates"
+				}
+			}
 			return "bad", "updated by the result of " + calleeName(&x.Call)
 		default:
 			return "bad", "updated by " + u.String()
@@ -525,6 +540,14 @@ func (a *OrderAnalysis) callOK(mr *MapRange, call ssa.CallInstruction, problem f
 		if a.Pure != nil && a.Pure(callee) {
 			return
 		}
+		// an append-like helper extending the loop's own accumulator: pure apart from that append
+		for _, h := range mr.appendHelpers {
+			if ssa.Instruction(h) == call.(ssa.Instruction) {
+				if k, ok := appendLikeParam(callee); ok && a.PureExcept != nil && a.PureExcept(callee, k) {
+					return
+				}
+			}
+		}
 		problem(call, "call of %s, which writes memory it does not own (effect order depends on iteration order)", core.ShortFn(callee))
 		return
 	}
@@ -576,6 +599,8 @@ func (a *OrderAnalysis) FindSorts() {
 						s.Value = mi.X
 					}
 					s.Less, _ = resolveClosure(call.Call.Args[1])
+					s.LessValue = s.Less
+					s.Less = unwrapWrapper(s.Less)
 					a.Sorts = append(a.Sorts, s)
 				case "sort.Strings", "sort.Ints", "sort.Float64s":
 					s := &SortSite{Fn: fn, Call: call, Value: call.Call.Args[0], Total: true}
@@ -763,6 +788,21 @@ func (a *OrderAnalysis) Propagate(root *ssa.Function) {
 						continue
 					case *ssa.Phi, *ssa.Slice, *ssa.Extract, *ssa.ChangeType:
 						continue // family member
+					case *ssa.UnOp:
+						if _, isAlloc := v.(*ssa.Alloc); isAlloc && x.Op == token.MUL {
+							continue // load of the tainted cell: family member, its own uses are checked
+						}
+					case *ssa.MakeClosure:
+						// the comparator closure of a sort on this family reads it by design
+						isCmp := false
+						for _, s := range a.Sorts {
+							if s.Less != nil && (x.Fn == ssa.Value(s.Less) || (s.LessValue != nil && x.Fn == ssa.Value(s.LessValue))) && s.Value != nil && fam[s.Value] {
+								isCmp = true
+							}
+						}
+						if isCmp {
+							continue
+						}
 					case *ssa.MakeInterface:
 						// argument of sort.Sort etc.
 						isSort := false
@@ -863,4 +903,79 @@ func (a *OrderAnalysis) Run(root *ssa.Function) {
 		a.classifyLoop(mr)
 	}
 	a.Propagate(root)
+}
+
+// unwrapWrapper sees through synthetic wrappers (bound method closures, thunks): a function whose body
+// is a single call of another function with its own parameters/free variables.
+func unwrapWrapper(fn *ssa.Function) *ssa.Function {
+	for i := 0; i < 3 && fn != nil && fn.Synthetic != ""; i++ {
+		var target *ssa.Function
+		n := 0
+		for _, b := range fn.Blocks {
+			for _, in := range b.Instrs {
+				if call, ok := in.(*ssa.Call); ok {
+					n++
+					target = call.Call.StaticCallee()
+				}
+			}
+		}
+		if n != 1 || target == nil {
+			return fn
+		}
+		fn = target
+	}
+	return fn
+}
+
+// appendLikeParam: every value fn returns is its slice parameter k, possibly extended by appends.
+func appendLikeParam(fn *ssa.Function) (int, bool) {
+	if len(fn.Blocks) == 0 || fn.Signature.Results().Len() != 1 {
+		return 0, false
+	}
+	for k, prm := range fn.Params {
+		if _, ok := prm.Type().Underlying().(*types.Slice); !ok {
+			continue
+		}
+		fam := map[ssa.Value]bool{}
+		var walk func(v ssa.Value) bool // true iff v derives only from prm via phi/append
+		seen := map[ssa.Value]bool{}
+		walk = func(v ssa.Value) bool {
+			if v == ssa.Value(prm) {
+				return true
+			}
+			if seen[v] {
+				return true
+			}
+			seen[v] = true
+			switch x := v.(type) {
+			case *ssa.Phi:
+				for _, e := range x.Edges {
+					if !walk(e) {
+						return false
+					}
+				}
+				fam[x] = true
+				return true
+			case *ssa.Call:
+				if b, ok := x.Call.Value.(*ssa.Builtin); ok && b.Name() == "append" {
+					return walk(x.Call.Args[0])
+				}
+			}
+			return false
+		}
+		all := true
+		n := 0
+		for _, b := range fn.Blocks {
+			if ret, ok := b.Instrs[len(b.Instrs)-1].(*ssa.Return); ok {
+				n++
+				if !walk(ret.Results[0]) {
+					all = false
+				}
+			}
+		}
+		if all && n > 0 {
+			return k, true
+		}
+	}
+	return 0, false
 }
